@@ -592,6 +592,9 @@ func DeleteConflicts(uuid dvid.UUID, data DataService, oldParents, newParents []
 				toDelete, err := kvv.FindConflicts(parentsV)
 				if err != nil {
 					dvid.Errorf("Error finding conflicts: %v\n", err)
+					if kv == nil {
+						return // the last batch: nothing more will be sent
+					}
 					continue
 				}
 
